@@ -1,37 +1,40 @@
-"""Regenerates /verif/MANIFEST.json from the table below (python -m harness.manifest)."""
+"""Regenerates /verif/MANIFEST.json from harness/entries/<PID>.json and
+/verif/known_findings.json from known_findings.d/*.json (python -m harness.manifest).
+
+An entry file has keys: text, design, note, technique, optional category (default proof).
+NOTE_COMMON is prepended to every note.  An entry with key not_applicable (a reason string)
+is listed under not_applicable instead."""
 import json
 import os
 
 VERIF = os.path.dirname(os.path.dirname(os.path.abspath(__file__)))
 
 NOTE_COMMON = ("Trusted: Coq 8.16.1 kernel incl. vm_compute (no native_compute); no axioms "
-               "(Print Assumptions = closed) unless stated; harness/translate.py; the hand-written Coq model, "
+               "(Print Assumptions = closed) unless stated; harness/tr translators; the hand-written Coq model, "
                "tied to /repo only by the correspondence check (differential, generator-bounded); ")
-
-CHECKS = {
-    "C06": dict(
-        text="Coq theorems C06_simplify_trace / C06_simplify_total: for ALL trees (blocks, if, if/else, for, "
-             "leaves, null; conditions = flags, negations, constants), all valuations and trip counts, the model of "
-             "simplify_ast (three passes incl. the deque loop with fuel adequacy) preserves the guarded leaf trace "
-             "and never fails. Model tied to /repo on every run: shape switches regenerated from the source "
-             "(Generated.v) + exhaustive small-scope and random differential run of real simplify_ast vs the model "
-             "evaluated by vm_compute; an implementation-level trace oracle searches for a failing input.",
-        design="4/C06",
-        note=NOTE_COMMON + "modelled not verified: pymbolic expression equality on conditions (atoms compared by "
-             "name), Python deque; conditions restricted to flags/negations/constants as the property states.",
-        technique="Coq proof (structural induction + fuel adequacy) + differential correspondence",
-    ),
-}
 
 ALL = ["C%02d" % i for i in range(1, 21)]
 
 
+def load_entries():
+    d = os.path.join(VERIF, "harness", "entries")
+    out = {}
+    for f in sorted(os.listdir(d)):
+        if f.endswith(".json"):
+            out[f[:-5]] = json.load(open(os.path.join(d, f)))
+    return out
+
+
 def build():
+    CHECKS = load_entries()
     checks = []
     for pid in ALL:
-        if pid not in CHECKS:
+        if pid not in CHECKS or CHECKS[pid].get("not_applicable"):
             continue
         c = CHECKS[pid]
+        note = c["note"]
+        if not note.startswith("Trusted:"):
+            note = NOTE_COMMON + note
         checks.append({
             "property_id": pid,
             "quick_cmd": "./check %s --tier quick" % pid,
@@ -41,11 +44,18 @@ def build():
             "engine": "coq",
             "level_claimed": {"category": c.get("category", "proof"), "text": c["text"],
                               "design_ref": "DESIGN.md section " + c["design"]},
-            "level_note": c["note"],
+            "level_note": note,
             "technique": c["technique"],
         })
-    na = [{"property_id": pid, "reason": "check not built yet in this development (planned: DESIGN.md section 4/%s); "
-           "nothing is claimed for it" % pid} for pid in ALL if pid not in CHECKS]
+    claimed = {c["property_id"] for c in checks}
+    na = []
+    for pid in ALL:
+        if pid in claimed:
+            continue
+        reason = (CHECKS.get(pid) or {}).get("not_applicable") or (
+            "check not built yet in this development (planned: DESIGN.md section 4/%s); "
+            "nothing is claimed for it" % pid)
+        na.append({"property_id": pid, "reason": reason})
     m = {
         "version": 1,
         "setup_cmd": "./setup.sh",
@@ -53,15 +63,27 @@ def build():
                   "reachable through public objects; checks import /repo's working tree via PYTHONPATH",
                   "baseline_off_cmd": "cd /repo && /venv/bin/python -m pytest -ra -q -p no:cacheprovider --timeout=900",
                   "source_commits": [], "add_only": True},
-        "engines": [{"name": "coq", "path": "/verif/coq", "serves_properties": sorted(CHECKS),
-                     "kind_free_text": "Coq 8.16.1 development (model/, proofs/, props/) + Python correspondence "
-                     "harness evaluating the model by vm_compute"}],
+        "engines": [{"name": "coq", "path": "/verif/coq", "serves_properties": sorted(claimed),
+                     "kind_free_text": "Coq 8.16.1 development (gen/, model/, proofs/, props/) + Python "
+                     "correspondence harness evaluating the model by vm_compute"}],
         "checks": checks,
         "not_applicable": na,
         "notes": "See DESIGN.md. fix: commits in /repo are recorded in known_findings.json.",
     }
     with open(os.path.join(VERIF, "MANIFEST.json"), "w") as f:
         json.dump(m, f, indent=1)
+        f.write("\n")
+    # known findings: one committed file assembled from known_findings.d/<PID>.json
+    findings = []
+    d = os.path.join(VERIF, "known_findings.d")
+    for fn in sorted(os.listdir(d)):
+        if fn.endswith(".json"):
+            findings.extend(json.load(open(os.path.join(d, fn))))
+    with open(os.path.join(VERIF, "known_findings.json"), "w") as f:
+        json.dump({"comment": "Committed list of genuine defects found by the checks (assembled from "
+                   "known_findings.d/ by harness/manifest.py; never written by a check). status=open entries are "
+                   "printed as KNOWN-FINDING and suppress exactly the listed witness class; status=fixed entries "
+                   "suppress nothing.", "findings": findings}, f, indent=1)
         f.write("\n")
 
 
